@@ -214,9 +214,9 @@ def sub_ws(md, acc):
 
 # ---- (3) reference form vs inline form ---------------------------------------------------------------------
 DEST = ["/l[0]", "<x y]z>", "u", "/a b", "<a b>", "a(b)", "a\\)b", "&amp;", "%20", "é", "<>", "a\\*b", "a&#42;b", "javascript:x", "#f", "?q=1&r",
-        "a\"b", "<a\\>b>", ""]
+        "a\"b", "<a\\>b>", "", "[x]:y"]
 TITLE = [None, '"s [1]"', "'w]'", '"t"', "'t'", "(t)", '"a\\"b"', '"&amp;"', '"a\nb"', '"é<>"', "'it\\'s'", '""', '"(x)"', "(a\\)b)",
-         '"a\\\nb"', "'a\\\n\\\nb'"]
+         '"a\\\nb"', "'a\\\n\\\nb'", '"see\n[1]: the note"', "'a\n[r]: /other'", "(a\n> b)", '"a\nb: c\n[d]"']
 TEXT = ["x", "*x*", "`c`", "a\\]b", "![i](j)", "&amp;", "[y]"]
 
 
@@ -236,32 +236,44 @@ def hooked(ci):
 def sub_forms(md, ci, text, dest, title, acc):
     tt = "" if title is None else " " + title
     for kind, bang in (("link", ""), ("image", "!")):
-        acc.case()
         inl = f"{bang}[{text}]({dest}{tt})\n"
-        ref = f"{bang}[{text}][r]\n\n[r]: {dest}{tt}\n"
         a = acc.call(md.parse, inl)
-        b = acc.call(md.parse, ref)
-        if a is CRASH or b is CRASH:
+        if a is CRASH:
             continue
         ha = md.renderer.render(a, md.options, {})
-        hb = md.renderer.render(b, md.options, {})
-        want = "link_open" if kind == "link" else "image"
-        fa = a[1].children[0] if len(a) == 3 and a[1].children else None
-        fb = b[1].children[0] if len(b) == 3 and b[1].children else None
-        ta = fa is not None and fa.type == want
-        tb = fb is not None and fb.type == want
-        if ta and tb:
-            acc.sig(("forms", ha))
-            ca = [c.as_dict() for c in a[1].children]
-            cb = [c.as_dict() for c in b[1].children]
-            if fa.attrs != fb.attrs:
-                return f"{kind}: attrs differ between inline form {fa.attrs} and reference form {fb.attrs}", inl, ref
-            if ca != cb:
-                return f"{kind}: inline children differ between inline and reference form", inl, ref
-            if ha != hb:
-                return f"{kind}: HTML differs between inline and reference form", inl, ref
-        elif ta != tb:
-            acc.count("forms_one_sided")
+        # the definition written on one line, with the destination on its own line, with the title on its own line
+        layouts = [f"[r]: {dest}{tt}\n", f"[r]:\n{dest}{tt}\n"]
+        if title is not None:
+            layouts.append(f"[r]: {dest}\n {title}\n")
+        for lay in layouts:
+            acc.case()
+            ref = f"{bang}[{text}][r]\n\n" + lay
+            b = acc.call(md.parse, ref)
+            if b is CRASH:
+                continue
+            hb = md.renderer.render(b, md.options, {})
+            want = "link_open" if kind == "link" else "image"
+            fa = a[1].children[0] if len(a) == 3 and a[1].children else None
+            fb = b[1].children[0] if len(b) == 3 and b[1].children else None
+            ta = fa is not None and fa.type == want
+            tb = fb is not None and fb.type == want
+            if ta and tb:
+                acc.sig(("forms", ha))
+                ca = [c.as_dict() for c in a[1].children]
+                cb = [c.as_dict() for c in b[1].children]
+                if fa.attrs != fb.attrs:
+                    return f"{kind}: attrs differ between inline form {fa.attrs} and reference form {fb.attrs}", inl, ref
+                if ca != cb:
+                    return f"{kind}: inline children differ between inline and reference form", inl, ref
+                if ha != hb:
+                    return f"{kind}: HTML differs between inline and reference form", inl, ref
+            elif ta != tb:
+                # destination and title follow one grammar in both forms; only the empty destination differs (a
+                # definition needs one, "()" does not)
+                if dest != "":
+                    return (f"{kind}: only the {'inline' if ta else 'reference'} form is recognised "
+                            f"(same destination and title)"), inl, ref
+                acc.count("forms_one_sided")
     return None, None, None
 
 
